@@ -225,6 +225,9 @@ def expand(item, seed):
                         yield {"phase": "frames", "gen": "grammar", "corr": corr, "hex": fr_bytes(rng, corr).hex(), "end": end,
                                "api": api, "seed": sd, "trace": sd == 0, "logtrace": sd in (1, 2), "tls": [None, None, None, None, "records", "plaintext_on_wire"][sd],
                                "opts": [[], ["fire_cont"], ["skip_utf8"], ["fire_cont", "skip_utf8"], [], []][sd]}
+                        if sd == 3:
+                            yield {"phase": "frames", "gen": "grammar", "corr": corr, "hex": fr_bytes(rng, corr).hex(), "end": end,
+                                   "api": api, "seed": sd, "trace": False, "tls": None, "opts": [], "nonblocking": True}
     else:
         for i in range(item["start"], item["start"] + item["count"]):
             yield gen(random.Random(derive_seed(seed, ID, i)))
@@ -254,12 +257,15 @@ def gen(rng):
                 i = rng.randrange(len(base))
                 base[i] = rng.choice((base[i] ^ (1 << rng.randrange(8)), rng.randrange(256), 0, 0xFF, 0x0A, 0x0D, 0x20, 0x3A))
         data = bytes(base)
-    return {"phase": phase, "gen": g, "corr": corr, "hex": data.hex(), "end": rng.choice(("eof", "silence")),
+    sc = {"phase": phase, "gen": g, "corr": corr, "hex": data.hex(), "end": rng.choice(("eof", "silence")),
             "api": rng.choice(("recv", "recv_data_frame_ctrl")), "seed": rng.randrange(1 << 30), "trace": rng.random() < 0.3,
             "logtrace": rng.random() < 0.25,
             "opts": rng.choice(([], [], [], ["fire_cont"], ["skip_utf8"], ["fire_cont", "skip_utf8"])) if phase == "frames" else [],
             # TLS transport: the same bytes as TLS application data, or put on the wire in the clear after the TLS handshake
             "tls": rng.choice((None, None, None, None, "records", "plaintext_on_wire"))}
+    if sc["phase"] == "frames" and not sc["tls"] and rng.random() < 0.12:
+        sc["nonblocking"] = True
+    return sc
 
 
 def run(sc, choices=None):
@@ -281,6 +287,9 @@ def run(sc, choices=None):
         opts = list(sc.get("opts") or [])
         if any(o not in ("fire_cont", "skip_utf8") for o in opts) or len(set(opts)) != len(opts):
             raise InvalidScenario("opts")
+        nonblocking = bool(sc.get("nonblocking"))
+        if nonblocking and (phase != "frames" or tlsmode):
+            raise InvalidScenario("nonblocking: frames phase, plain transport")
     except (KeyError, TypeError, ValueError) as e:
         raise InvalidScenario(str(e))
     T = 2 * S
@@ -298,7 +307,7 @@ def run(sc, choices=None):
     trace = bool(sc.get("trace")) and not tlsmode
     policy = {"kind": "prob", "p_line": 0.0, "p_call": 0.0} if trace else None
     # 'logtrace': the library's own trace logging (enableTrace) is on - its extra work on received frames must not fail
-    w, peers = std_world(seed=int(sc.get("seed", 1)), peer_cfg=peer_cfg, policy=policy, step_cap=3_000_000, time_cap_s=400,
+    w, peers = std_world(seed=int(sc.get("seed", 1)), peer_cfg=peer_cfg, policy=policy, step_cap=300_000 if nonblocking else 3_000_000, time_cap_s=400,
                          trace=bool(sc.get("logtrace")), tls=bool(tlsmode), port=443 if tlsmode else 80)
     # a second, well-behaved host for redirects that point somewhere resolvable
     calls = []  # (name, outcome, exc name, steps, bytes consumed)
@@ -333,6 +342,11 @@ def run(sc, choices=None):
                 calls.append(("connect", "exc", exc_name(e), w.k.steps - s0, consumed() - b0, e))
             timeouts = 0
             n = 0
+            if ok and nonblocking:
+                # the caller polls a non-blocking connection: "nothing there yet" is BlockingIOError, the end of the stream
+                # must still end the call (not be taken for "nothing there yet" inside the library's own loops)
+                c.settimeout(0)
+                res.probes["nonblocking_transport"] = 1
             while ok and n < 32 and timeouts < 2:
                 n += 1
                 s0, b0 = w.k.steps, consumed()
@@ -343,9 +357,17 @@ def run(sc, choices=None):
                 except SimAbort:
                     calls.append((api, "abort", w.k.abort_reason, w.k.steps - s0, consumed() - b0, None))
                     break
-                except ws.WebSocketTimeoutException as e:
+                except (ws.WebSocketTimeoutException, BlockingIOError) as e:
+                    if isinstance(e, BlockingIOError) and not nonblocking:
+                        raise
                     timeouts += 1
                     calls.append((api, "timeout", exc_name(e), w.k.steps - s0, consumed() - b0, e))
+                    if nonblocking:
+                        try:
+                            w.k.sleep(T)
+                        except SimAbort:
+                            calls.append((api, "abort", w.k.abort_reason, 0, 0, None))
+                            break
                 except BaseException as e:  # noqa
                     calls.append((api, "exc", exc_name(e), w.k.steps - s0, consumed() - b0, e))
                     obs.append(["exc", exc_name(e), int(isinstance(e, ws.WebSocketException)), int(isinstance(e, OSError))])
@@ -406,4 +428,4 @@ def _only_after_close(frames, obs, exp):
 
 def sample_view(sc, r):
     return {"phase": sc["phase"], "generator": sc.get("gen"), "corrupted_field": sc.get("corr"), "bytes_hex": sc["hex"][:160],
-            "ending": sc.get("end"), "api": sc.get("api"), "receive_options": sc.get("opts") or [], "tls": sc.get("tls"), "line_tracing": sc.get("trace"), "library_trace_logging": sc.get("logtrace")}
+            "ending": sc.get("end"), "api": sc.get("api"), "receive_options": sc.get("opts") or [], "nonblocking": sc.get("nonblocking"), "tls": sc.get("tls"), "line_tracing": sc.get("trace"), "library_trace_logging": sc.get("logtrace")}
